@@ -285,6 +285,15 @@ class Gen:
         if not self.containers or not self.plates:
             return None
         s, d = rng.choice(self.plates), rng.choice(self.containers)
+        if rng.random() < 0.12:
+            # a region in which one well cannot give what the others can (it holds less, or nothing): the whole request is infeasible
+            r = self.region(s, kind or rng.choice(['row', 'col', 'rect', 'all']))
+            cells = dsl.region_cells(r, 0) if r else []
+            vols = [self.well_obj(s, c).volume for c in cells]
+            if len(cells) >= 2 and max(vols) > 2 and min(vols) < 0.6 * max(vols):
+                q = pick_qty(rng, max(vols) * 0.8 * 1e-6, 'L', sig=2)
+                op = {'op': 'transfer', 'src': {'p': s, 'r': r}, 'dst': {'c': d}, 'q': q, 'osrc': self.fresh(), 'odst': self.fresh()}
+                return self.emit(op, 'pair:n->c:one-well-short')
         r = self.nonempty_region(s, kind)
         q, b = self.min_well_qty(s, r, frac if frac is not None else rng.choice([0.2, 0.5, 0.9]))
         if q is None:
